@@ -204,6 +204,29 @@ func (g *hgen) retentionEdge() {
 	}
 }
 
+// exactSpan: the two ends of a timestamp's validity span, to the nanosecond: accepted at the first instant of a
+// second (or a chosen fraction) with the largest client skew that still validates, re-presented at the very last
+// valid instant, a fresh request being accepted at that same instant (or 1-2 ns earlier) so that the pool is pruned.
+func (g *hgen) exactSpan() {
+	g.alignFrac(common.Pick(g.r, []int64{0, 0, 0, 1, 2, 999999999, g.frac()}))
+	s := common.Pick(g.r, []int64{30, 30, 30, 29, 31})
+	ts := uint64(g.sec() + s)
+	i := g.newReq("genuine", ts, false)
+	last := (int64(ts)+31)*1e9 - 1
+	target := last - common.Pick(g.r, []int64{0, 0, 0, 1, 2, -1})
+	if g.r.Chance(1, 3) {
+		g.adv(int64(g.r.U64() % uint64(target-g.now)))
+		g.noise(i)
+	}
+	pre := common.Pick(g.r, []int64{0, 0, 0, 1, 2})
+	if target-pre > g.now {
+		g.advTo(target - pre)
+	}
+	g.newReq("genuine", uint64(g.sec()+int64(g.r.Range(-30, 30))), false)
+	g.advTo(target)
+	g.present(i)
+}
+
 var walkSteps = []int64{0, 1, 2, 999999999, 1e9, 29e9, 30e9 - 1, 30e9, 30e9 + 1, 31e9, 59e9, 60e9 - 1, 60e9, 60e9 + 1, 61e9 - 1, 61e9, 61e9 + 1}
 
 // walk: unstructured history.
@@ -262,8 +285,10 @@ func (g *hgen) forgedFirst() {
 func genReplayCase(r *common.Rng) Case {
 	g := newHgen(r)
 	switch r.Intn(10) {
-	case 0, 1, 2, 3:
+	case 0, 1, 2:
 		g.endOfValidity()
+	case 3:
+		g.exactSpan()
 	case 4, 5:
 		g.retentionEdge()
 	case 6:
